@@ -562,6 +562,12 @@ def gen_string(rng, name, classes, psat=0.55):
         fmt, good, bad = _gen_format(rng)
         sat = rng.random() < psat
         V = good if sat else bad
+        if kinds == ['format'] and rng.random() < 0.2:
+            # the empty string is a value like any other: it satisfies the format only if the pattern admits it
+            V = ''
+            sat = format_matches(fmt, '') is True
+            classes.add('format-on-empty-string')
+            classes.add('format-on-empty-string-' + ('match' if sat else 'violated'))
         classes.add('format-match' if sat else 'format-violated')
         nd['props'].append({'p': 'format', 'f': fmt})
     else:
